@@ -212,6 +212,24 @@ func (e *Env) Stop() (clientStop, serverStop time.Duration) {
 	return
 }
 
+// StopBounded stops client and server but does not wait longer than max for
+// either of them: checks whose subject is not shutdown use it so that a slow
+// Stop (see C15) does not dominate their run time. It reports whether both
+// completed in time; a Stop still running continues in the background.
+func (e *Env) StopBounded(max time.Duration) (inTime bool) {
+	done := make(chan struct{})
+	go func() {
+		e.Stop()
+		close(done)
+	}()
+	select {
+	case <-done:
+		return true
+	case <-time.After(max):
+		return false
+	}
+}
+
 func (e *Env) isStopped() bool {
 	e.mu.Lock()
 	defer e.mu.Unlock()
